@@ -206,7 +206,14 @@ def outcome(fn):
 async def outcome_async(coro):
     try:
         return ("ok", await coro)
-    except (SimDeadlock, SimStepCap, asyncio.CancelledError, KeyboardInterrupt, SystemExit, MemoryError):
+    except asyncio.CancelledError:
+        # cancelled by the simulator (this very task was asked to cancel): propagate; a
+        # CancelledError that reaches an operation nobody cancelled is an outcome to be judged
+        t = asyncio.current_task()
+        if t is not None and t.cancelling():
+            raise
+        return ("err", "CancelledError")
+    except (SimDeadlock, SimStepCap, KeyboardInterrupt, SystemExit, MemoryError):
         raise
     except RecursionError:
         return ("err", "RecursionError")
